@@ -67,6 +67,53 @@ func ArithParser() parsley.Parser {
 	return combinator.Sentence(text.RightTrim(&expr, text.WsSpacesNl))
 }
 
+// ArithParserSplit is the same language with one left-recursive alternative PER OPERATOR
+// (expr -> expr '+' term | expr '-' term | term, term -> term '*' factor | term '/' factor | factor):
+// two alternatives of one rule start with the rule itself.
+func ArithParserSplit() parsley.Parser {
+	bin := ast.InterpreterFunc(func(userCtx interface{}, node parsley.NonTerminalNode) (interface{}, parsley.Error) {
+		ch := node.Children()
+		l, err := parsley.EvaluateNode(userCtx, ch[0])
+		if err != nil {
+			return nil, err
+		}
+		r, err := parsley.EvaluateNode(userCtx, ch[2])
+		if err != nil {
+			return nil, err
+		}
+		a, b := l.(int64), r.(int64)
+		switch ch[1].Token() {
+		case "+":
+			return a + b, nil
+		case "-":
+			return a - b, nil
+		case "*":
+			return a * b, nil
+		}
+		if b == 0 {
+			return nil, parsley.NewErrorf(ch[1].Pos(), "division by zero")
+		}
+		return a / b, nil
+	})
+	tok := func(p parsley.Parser) parsley.Parser { return text.LeftTrim(p, text.WsSpacesNl) }
+	var expr, term, factor parser.Func
+	factor = combinator.Memoize(combinator.Any(
+		tok(terminal.Integer(nil)),
+		combinator.SeqOf(tok(terminal.Rune('(')), &expr, tok(terminal.Rune(')'))).Bind(interpreter.Select(1)),
+	))
+	term = combinator.Memoize(combinator.Any(
+		combinator.SeqOf(&term, tok(terminal.Rune('*')), &factor).Bind(bin),
+		combinator.SeqOf(&term, tok(terminal.Rune('/')), &factor).Bind(bin),
+		&factor,
+	))
+	expr = combinator.Memoize(combinator.Any(
+		combinator.SeqOf(&expr, tok(terminal.Rune('+')), &term).Bind(bin),
+		combinator.SeqOf(&expr, tok(terminal.Rune('-')), &term).Bind(bin),
+		&term,
+	))
+	return combinator.Sentence(text.RightTrim(&expr, text.WsSpacesNl))
+}
+
 // ---- reference: lexer + recursive descent with left-associative folding
 
 type arithKind int
